@@ -17,6 +17,8 @@ func init() {
 			ruleReloadAllOrNothing(c, "C05.R5")
 			c.Rule("C05.R6", "lookup, store write and memory update in one critical section", 12)
 			ruleOneCriticalSection(c, "C05.R6")
+			c.Rule("C05.R9", "no error of the ipam / store / provider layer is silently dropped in galaxy-ipam", 60)
+			ruleNoDroppedErrors(c, "C05.R9", []string{"pkg/ipam/floatingip", "pkg/ipam/schedulerplugin", "pkg/ipam/api"}, droppedErrExceptions)
 			c.Rule("C05.R7", "an IP enters the allocated table only after the Create of that object succeeded (per object)", 3)
 			ruleCreateBeforeCache(c, "C05.R7")
 			c.Rule("C05.R8", "errors of the store client are returned by the store wrappers", 5)
@@ -52,4 +54,9 @@ func init() {
 			c.Rule("C09.R7", "tables only under the cache lock", 35)
 			ruleGuardedBy(c, "C09.R7", []string{cacheLockID}, 40)
 		}})
+}
+
+// errors deliberately ignored, one line of reason each (function -> callee)
+var droppedErrExceptions = map[string]string{
+	"(*@/pkg/ipam/schedulerplugin.FloatingIPPlugin).releaseIP -> ByKeyAndIPRanges": "the only implementation (crdIpam.ByKeyAndIPRanges) always returns a nil error and an empty result is handled; the variable is overwritten by the next call",
 }
